@@ -2,8 +2,12 @@ package main
 
 import (
 	"errors"
+	"fmt"
 	"io"
+	"io/fs"
+	"os"
 	"runtime"
+	"syscall"
 	"time"
 )
 
@@ -28,9 +32,29 @@ type Port struct {
 	Written [][]byte
 	Events  []byte // 'W' per Write call, 'F' per Flush call, 'R' per Read call
 	Closed  bool
+	Fault   error // what a failing operation reports (nil: errFault)
 }
 
 var errFault = errors.New("injected port fault")
+
+// the kinds of error a real port reports: *os.File errors of a closed or timed-out file (a *fs.PathError around a sentinel that is
+// no errno), of an unplugged adapter (a *fs.PathError around an errno), plain sentinels, a private error type
+type portGone struct{ code int }
+
+func (e portGone) Error() string { return "port gone" }
+
+var faultErrs = []error{
+	errFault,
+	&fs.PathError{Op: "read", Path: "/dev/ttyUSB0", Err: os.ErrClosed},
+	&fs.PathError{Op: "write", Path: "/dev/ttyUSB0", Err: syscall.EIO},
+	&fs.PathError{Op: "read", Path: "/dev/ttyUSB0", Err: os.ErrDeadlineExceeded},
+	io.ErrUnexpectedEOF,
+	io.ErrClosedPipe,
+	syscall.ENODEV,
+	portGone{5},
+	&portGone{6},
+	fmt.Errorf("wrapped: %w", &fs.PathError{Op: "read", Path: "x", Err: errors.New("not an errno")}),
+}
 
 func idxSet(l []int) map[int]bool {
 	m := map[int]bool{}
@@ -50,6 +74,13 @@ func NewPort(init [][]byte, replies [][][]byte, wf, rf, ff []int) *Port {
 	return p
 }
 
+func (p *Port) fault() error {
+	if p.Fault != nil {
+		return p.Fault
+	}
+	return errFault
+}
+
 func (p *Port) Write(b []byte) (int, error) {
 	if p.Yield {
 		runtime.Gosched()
@@ -61,7 +92,7 @@ func (p *Port) Write(b []byte) (int, error) {
 	}
 	p.Events = append(p.Events, 'W')
 	if p.WF[k] {
-		return 0, errFault
+		return 0, p.fault()
 	}
 	p.Written = append(p.Written, append([]byte(nil), b...))
 	if k < len(p.Replies) {
@@ -94,7 +125,7 @@ func (p *Port) Read(b []byte) (int, error) {
 	}
 	if p.RF[k] {
 		p.NE++
-		return 0, errFault
+		return 0, p.fault()
 	}
 	if len(p.Queue) == 0 {
 		p.NE++
@@ -119,7 +150,7 @@ func (p *Port) Flush() error {
 	p.NF++
 	p.Events = append(p.Events, 'F')
 	if p.FF[k] {
-		return errFault
+		return p.fault()
 	}
 	p.Queue = nil
 	return nil
